@@ -49,10 +49,10 @@ def mc_configs(tier):
             ("lateral-T2", consts({"full"}, {"dplus"}, 3, (8,), (0, 4, 8), zerodiag=True)),
         ]
     return [
-        ("full-2x2-T3", consts({"full"}, ALL, 4, (8,), (0, 4, 8))),
-        ("full-2x1-T6", consts({"full"}, ALL, 7, (12,), (0, 4, 8, 12), I=2, O=1)),
+        ("full-2x2-T2", consts({"full"}, ALL, 3, (8,), (0, 4, 8))),
+        ("full-2x1-T4", consts({"full"}, ALL, 5, (12,), (0, 4, 12), I=2, O=1)),
         ("full-1x2-T6", consts({"full"}, ALL, 7, (12,), (0, 4, 8, 12), I=1, O=2)),
-        ("diag-T5", consts({"diag"}, ALL, 6, (12,), (0, 4, 8, 12))),
+        ("diag-T4", consts({"diag"}, ALL, 5, (12,), (0, 4, 12))),
         ("offgrid-T4", consts({"full"}, ALL, 5, (6, 10), (0, 1, 2, 5, 6, 9), I=1, O=2,
                               smodes=("previous", "nearest"))),
         ("offgrid-2x2-T2", consts({"full"}, {"sexp", "delta"}, 3, (6,), (0, 2, 6), smodes=("nearest",))),
@@ -220,6 +220,7 @@ def twin_run(chk, rng, ctype, sk, dt, steps, batch, report=True, corrupt=False):
 def run(tier: str, seed: int) -> int:
     chk = Check(PID, tier, seed)
     rng = random.Random(seed)
+    torch.manual_seed(seed)
     chk.extra["rule"] = ("MC: every (state, operation) pair of the bounded connection model (state = delay assignment + "
                          "input history + synapse rings). Replay: one execution per (sampled state, operation) of the "
                          "emitted tables per connection class. Twins: one comparison per output element per step. A "
@@ -239,15 +240,16 @@ def run(tier: str, seed: int) -> int:
                 ("gen-offgrid-T2", consts({"full"}, {"delta", "dplus", "sexp"}, 2, (6,), (0, 2, 6), I=2, O=1,
                                           smodes=("previous", "nearest")), ["dense"], 8, 12)]
     else:
-        gens = [("gen-full-2x2-T3", consts({"full"}, ALL, 3, (8,), (0, 4, 8)), ["dense", "conv"], 40, 120),
-                ("gen-full-2x1-T5", consts({"full"}, ALL, 5, (8,), (0, 4, 8), I=2, O=1), ["dense", "conv"], 120, None),
-                ("gen-diag-T5", consts({"diag"}, ALL, 5, (8,), (0, 4, 8)), ["direct"], 120, None),
-                ("gen-lateral-T3", consts({"full"}, ALL, 3, (8,), (0, 4, 8), zerodiag=True), ["lateral"], 60, None),
-                ("gen-offgrid-T3", consts({"full"}, ALL, 3, (6,), (0, 2, 5, 6), I=2, O=1,
-                                          smodes=("previous", "nearest")), ["dense", "conv"], 60, None),
+        gens = [("gen-full-2x2-T2", consts({"full"}, ALL, 2, (8,), (0, 8)), ["dense", "conv"], 30, None),
+                ("gen-full-2x2-mid-T2", consts({"full"}, {"sexp"}, 2, (8,), (0, 4, 8)), ["dense", "conv"], 30, None),
+                ("gen-full-2x1-T3", consts({"full"}, ALL, 3, (8,), (0, 4, 8), I=2, O=1), ["dense", "conv"], 100, None),
+                ("gen-diag-T3", consts({"diag"}, ALL, 3, (8,), (0, 4, 8)), ["direct"], 100, None),
+                ("gen-lateral-T3", consts({"full"}, ALL, 3, (8,), (0, 4, 8), zerodiag=True), ["lateral"], 100, None),
+                ("gen-offgrid-T2", consts({"full"}, ALL, 2, (6,), (0, 2, 5, 6), I=2, O=1,
+                                          smodes=("previous", "nearest")), ["dense", "conv"], 30, None),
                 ("gen-undelayed-T3", consts({"full", "diag"}, ALL, 3, (0, 8), (0,), delayed=(True, False)),
                  ["dense", "direct", "conv"], 60, None)]
-    pool = ThreadPoolExecutor(max_workers=5)
+    pool = ThreadPoolExecutor(max_workers=6)
     futs = [pool.submit(symcommon.gen_graph, chk, "DelayShiftMC", it[0], it[1]) for it in gens]
     # ---- T
     symcommon.run_mc(chk, "DelayShiftMC", mc_configs(tier), INVS)
@@ -317,3 +319,18 @@ def run(tier: str, seed: int) -> int:
     chk.sample({"kind": "twin-run", "cfg": cfg})
     chk.note("canary: corrupted twin comparison rejected")
     return chk.finish()
+
+
+def replay(path: str) -> int:
+    import json
+    doc = json.loads(open(path).read())
+    sig, rep = doc["signature"], doc["replay"]
+    if sig.get("site", "").startswith("graph-replay"):
+        P = SynParams(**rep["params"])
+        st0 = rep.get("state") or rep.get("expected_state")
+        c = st0["c"]
+        hdr = {"ctype": rep["ctype"], "cf": rep["cf"], "params": P, "I": c["I"], "O": c["O"], "W": rep["W"],
+               "b": rep["b"], "d": rep["d"], "delayed": c["delayed"]}
+        return symcommon.rerun_graph_record(PID, doc, lambda: ConnImpl(hdr), ConnMatcher(P, rep["W"], rep["b"]))
+    print(f"[{PID}] replay: re-run ./check {PID} (twin / specification-level record: {sig})")
+    return 1
